@@ -990,8 +990,8 @@ class Steward(object):
         data['version'] = "HTTP/{0}.{1}".format(*self.requestant.version)
         data['method'] = self.requestant.method
 
-        pathSplits = urlsplit(unquote(self.requestant.url))
-        path = pathSplits.path
+        pathSplits = urlsplit(self.requestant.url)  # as parseHead did, unquote after splitting
+        path = unquote(pathSplits.path)
         data['path'] = path
 
         query = pathSplits.query
